@@ -114,4 +114,164 @@ theorem lcc_rejects_pole_with_other (s2 c2 : ℝ) (h : c2 ≠ 0) : lccPolesOk 1 
 theorem albers_rejects_opposite_poles : albPolesOk (1 : ℝ) 0 (-1) 0 = false := by
   simp [albPolesOk, zero_real]
 
+/-! ## Polar stereographic -/
+
+theorem psRho1_pos (tp : ℝ) : 0 < psRho1 false tp := by
+  have hp := hyp_pos tp
+  have hlt := abs_lt_hyp tp
+  have habs := abs_nonneg tp
+  unfold psRho1
+  simp only [leb_real, zero_real, one_real, abs_real, Bool.false_eq_true, if_false]
+  by_cases h : 0 ≤ tp
+  · simp only [h, decide_true, if_true]
+    positivity
+  · simp only [h, decide_false, Bool.false_eq_true, if_false]
+    positivity
+
+/-- **Key identity** of `Reverse`: with `t = 1/(√(1+τ′²) + τ′)` (`τ′ ≥ 0`) or `t = √(1+τ′²) − τ′` (`τ′ < 0`),
+    `(1/t − t)/2 = τ′` — for every real `τ′`. -/
+theorem ps_key_identity (tp : ℝ) : (1 / psRho1 false tp - psRho1 false tp) / 2 = tp := by
+  have hh := hyp_sq tp
+  have hp := hyp_pos tp
+  have hlt := abs_lt_hyp tp
+  unfold psRho1
+  simp only [leb_real, zero_real, one_real, abs_real, Bool.false_eq_true, if_false]
+  by_cases h : 0 ≤ tp
+  · simp only [h, decide_true, if_true]
+    rw [abs_of_nonneg h]
+    have hne : hyp tp + tp ≠ 0 := by linarith
+    field_simp
+    linear_combination hh
+  · simp only [h, decide_false, Bool.false_eq_true, if_false]
+    have hneg : tp < 0 := not_le.mp h
+    rw [abs_of_neg hneg]
+    have hne : hyp tp + -tp ≠ 0 := by linarith
+    field_simp
+    linear_combination -hh
+
+theorem psReverse_of_rho (P : PS ℝ) (tauf : ℝ → ℝ → ℝ) (np : Bool) (x y ρ : ℝ) (h : RealLike.hypot x y = ρ) (hne : ρ ≠ 0) :
+    psReverse tauf P np x y =
+      ⟨tauf ((1 / (ρ / P.r) - ρ / P.r) / 2) P.es, x, if np then -y else y, psScale P ρ (tauf ((1 / (ρ / P.r) - ρ / P.r) / 2) P.es)⟩ := by
+  unfold psReverse
+  simp only [h, eqb_real, zero_real, hne, decide_false, Bool.not_false, if_true, one_real, two_real]
+
+/-- **`ps_inverse`.**  `Reverse ∘ Forward = id` for the polar stereographic model, away from the pole that maps to the
+    centre, for every ellipsoid and scale (`2 k0 a / c > 0`), both hemispheres, every latitude (`τ = tan φ` any real)
+    and longitude direction `(s, c)`, for any inversion `tauf` of `taupf`: `Reverse` recovers `τ` exactly, returns the
+    same scale, and the arguments it passes to `atan2d` are `ρ·(sin λ, cos λ)` with `ρ > 0`. -/
+theorem ps_inverse (P : PS ℝ) (tauf : ℝ → ℝ → ℝ) (htauf : ∀ τ, tauf (taupf τ P.es) P.es = τ)
+    (hr : 0 < P.r) (np : Bool) (τ s c : ℝ) (hsc : s ^ 2 + c ^ 2 = 1) :
+    let o := psForward P np false τ s c
+    let r := psReverse tauf P np o.x o.y
+    let ρ := psRho1 false (taupf τ P.es) * P.r
+    0 < ρ ∧ r.tau = τ ∧ r.k = o.k ∧ r.lonx = s * ρ ∧ r.lony = c * ρ := by
+  intro o r ρ
+  have h1 := psRho1_pos (taupf τ P.es)
+  have hρ : 0 < ρ := mul_pos h1 hr
+  have hrho : RealLike.hypot o.x o.y = ρ := by
+    show RealLike.hypot (s * ρ) (c * (if np then -ρ else ρ)) = ρ
+    rw [hypot_real]
+    have : (s * ρ) ^ 2 + (c * (if np then -ρ else ρ)) ^ 2 = ρ ^ 2 := by
+      cases np <;> simp <;> linear_combination (ρ ^ 2) * hsc
+    rw [this]
+    exact Real.sqrt_sq hρ.le
+  have hne : ρ ≠ 0 := hρ.ne'
+  have ht : ρ / P.r = psRho1 false (taupf τ P.es) := by
+    show psRho1 false (taupf τ P.es) * P.r / P.r = _
+    field_simp
+  have hr' : r = ⟨tauf ((1 / (ρ / P.r) - ρ / P.r) / 2) P.es, o.x, if np then -o.y else o.y,
+      psScale P ρ (tauf ((1 / (ρ / P.r) - ρ / P.r) / 2) P.es)⟩ := psReverse_of_rho P tauf np o.x o.y ρ hrho hne
+  have hτ' : tauf ((1 / (ρ / P.r) - ρ / P.r) / 2) P.es = τ := by
+    rw [ht, ps_key_identity]; exact htauf τ
+  rw [hr']
+  refine ⟨hρ, hτ', ?_, rfl, ?_⟩
+  · show psScale P ρ (tauf ((1 / (ρ / P.r) - ρ / P.r) / 2) P.es) = psScale P ρ τ
+    rw [hτ']
+  · show (if np then -(c * (if np then -ρ else ρ)) else c * (if np then -ρ else ρ)) = c * ρ
+    cases np <;> simp
+
+/-- at the pole that maps to the centre, `Forward` returns the centre and the central scale, and `Reverse` of the centre
+    returns the central scale -/
+theorem ps_pole (P : PS ℝ) (tauf : ℝ → ℝ → ℝ) (np : Bool) (τ s c : ℝ) (hτ : 0 ≤ taupf τ P.es) :
+    let o := psForward P np true τ s c
+    o.x = 0 ∧ o.y = 0 ∧ o.k = P.k0 ∧ (psReverse tauf P np 0 0).k = P.k0 := by
+  intro o
+  refine ⟨?_, ?_, rfl, ?_⟩
+  · show s * (psRho1 true (taupf τ P.es) * P.r) = 0
+    simp [psRho1, leb_real, zero_real, hτ]
+  · show c * (if np then -(psRho1 true (taupf τ P.es) * P.r) else psRho1 true (taupf τ P.es) * P.r) = 0
+    cases np <;> simp [psRho1, leb_real, zero_real, hτ]
+  · simp [psReverse, hypot_real, eqb_real, zero_real]
+
+/-- **`ps_gamma_k` (scale).**  The returned scale is `ρ / (a m(φ))`, `m = cos φ / √(1 − e² sin² φ)` the radius of the
+    parallel over `a` (with `sin φ = τ/√(1+τ²)`, `cos φ = 1/√(1+τ²)`). -/
+theorem ps_scale_formula (P : PS ℝ) (ρ τ : ℝ) (ha : P.a ≠ 0) (hW : 0 < 1 + P.e2m * τ ^ 2) :
+    psScale P ρ τ * (P.a * ((1 / hyp τ) / Real.sqrt (1 - P.e2 * (τ / hyp τ) ^ 2))) = ρ := by
+  have hh := hyp_sq τ
+  have hp := hyp_pos τ
+  have hne : hyp τ ≠ 0 := hp.ne'
+  have hW1 : P.e2m + P.e2 / hyp τ ^ 2 = (1 + P.e2m * τ ^ 2) / hyp τ ^ 2 := by
+    unfold PS.e2m at *
+    simp only [one_real] at *
+    field_simp
+    rw [hh]; ring
+  have hW2 : 1 - P.e2 * (τ / hyp τ) ^ 2 = (1 + P.e2m * τ ^ 2) / hyp τ ^ 2 := by
+    unfold PS.e2m at *
+    simp only [one_real] at *
+    field_simp
+    rw [hh]; ring
+  have hpos : 0 < (1 + P.e2m * τ ^ 2) / hyp τ ^ 2 := div_pos hW (by positivity)
+  unfold psScale
+  simp only [sq_real, sqrt_real]
+  rw [hW1, hW2]
+  have hs : Real.sqrt ((1 + P.e2m * τ ^ 2) / hyp τ ^ 2) ≠ 0 := (Real.sqrt_pos.mpr hpos).ne'
+  field_simp
+
+example : (0 : ℝ) < 1 + (1 - (1/298 : ℝ) * (2 - 1/298)) * 3 ^ 2 := by norm_num
+
+/-- **`ps_gamma_k` (convergence)** is by definition `±lon` in the model's caller (`AngNormalize(northp ? lon : −lon)`);
+    the direction statement of `ps_inverse` is the corresponding fact for `Reverse`. -/
+theorem ps_forward_direction (P : PS ℝ) (np : Bool) (τ s c : ℝ) :
+    let o := psForward P np false τ s c
+    let ρ := psRho1 false (taupf τ P.es) * P.r
+    o.x = ρ * s ∧ o.y = (if np then -1 else 1) * (ρ * c) := by
+  intro o ρ
+  refine ⟨?_, ?_⟩
+  · show s * ρ = ρ * s
+    ring
+  · show c * (if np then -ρ else ρ) = (if np then -1 else 1) * (ρ * c)
+    cases np <;> simp <;> ring
+
+/-- away from the pole the scale is linear in `k0` -/
+theorem ps_scale_linear (P : PS ℝ) (np : Bool) (τ s c k0 : ℝ) :
+    (psForward { P with k0 := k0 } np false τ s c).k = k0 * (psForward { P with k0 := 1 } true false τ 0 1).k := by
+  simp only [psForward, psScale, PS.r, PS.c, PS.es, PS.e2, PS.e2m, Bool.false_eq_true, if_false, one_real, two_real,
+    sq_real, sqrt_real]
+  ring
+
+/-- **`ps_setscale`.**  After `SetScale(lat, k)` the scale at `lat` is `k` (whenever the old scale there is non-zero). -/
+theorem ps_setscale (P : PS ℝ) (np pole : Bool) (τ s c k : ℝ)
+    (hk : (psForward { P with k0 := 1 } true pole τ 0 1).k ≠ 0) :
+    (psForward { P with k0 := psSetScale P pole τ k } np pole τ s c).k = k := by
+  cases pole
+  · rw [ps_scale_linear]
+    simp only [psSetScale, one_real, zero_real]
+    field_simp
+  · simp [psForward, psSetScale, one_real]
+
+example : (psForward { (⟨1, 0, 1⟩ : PS ℝ) with k0 := 1 } true true 0 0 1).k ≠ 0 := by
+  simp [psForward]
+
+/-! ## The Newton inversion `tauf` -/
+
+/-- an exact solution is a fixed point of the Newton loop of `Math::tauf`, for any tolerance and iteration count -/
+theorem tauf_loop_fixed (taup es e2m stol τ : ℝ) (h : taupf τ es = taup) (n : ℕ) :
+    taufLoop taup es e2m stol n τ = τ := by
+  induction n with
+  | zero => rfl
+  | succ n ih =>
+    have hd : taufDelta taup es e2m τ = 0 := by
+      simp [taufDelta, h]
+    simp only [taufLoop, hd, add_zero, ih, ite_self]
+
 end GeoVerif.Props.C11
